@@ -161,6 +161,19 @@ func c13(ctx *Ctx) (*Outcome, error) {
 		root.Props = append(root.Props, sg.Prop{Name: "anyprop", S: &sg.Schema{}}, sg.Prop{Name: "anyitems", S: &sg.Schema{Types: []string{"array"}, Items: &sg.Schema{}}},
 			sg.Prop{Name: "anyadd", S: &sg.Schema{Types: []string{"object"}, Props: []sg.Prop{{Name: "k", S: &sg.Schema{Types: []string{"string"}}}}, AddProps: &sg.Schema{}}})
 		root.Extra = append(root.Extra, jsonx.KV{K: "dependentSchemas", V: jsonx.Obj{{K: "anyprop", V: jsonx.Obj{{K: "type", V: "object"}, {K: "required", V: []any{"anyitems"}}}}}})
+		// the dependency keyword below the root as well (in a property, in array items, in a definition), with an
+		// object schema and with the anything-schema as values: two of the re-spellings meet at one spot
+		dep := func() jsonx.KV {
+			return jsonx.KV{K: "dependentSchemas", V: jsonx.Obj{{K: "k", V: jsonx.Obj{}}, {K: "m", V: jsonx.Obj{{K: "type", V: "object"}, {K: "required", V: []any{"k"}}}}}}
+		}
+		inner := &sg.Schema{Types: []string{"object"}, Props: []sg.Prop{{Name: "k", S: &sg.Schema{Types: []string{"string"}}}, {Name: "m", S: &sg.Schema{Types: []string{"integer"}}}}}
+		inner.Extra = append(inner.Extra, dep())
+		item := &sg.Schema{Types: []string{"object"}, Props: []sg.Prop{{Name: "k", S: &sg.Schema{Types: []string{"boolean"}}}}}
+		item.Extra = append(item.Extra, dep())
+		root.Props = append(root.Props, sg.Prop{Name: "depprop", S: inner}, sg.Prop{Name: "depitems", S: &sg.Schema{Types: []string{"array"}, Items: item}})
+		if len(root.Defs) > 0 && len(root.Defs[0].S.Types) == 1 && root.Defs[0].S.Types[0] == "object" {
+			root.Defs[0].S.Extra = append(root.Defs[0].S.Extra, dep())
+		}
 		if i%5 == 4 {
 			// a "type library": the root carries nothing but an id and definitions (also reached through an external $ref
 			// is not needed: the root document itself shows whether the two definition spellings are treated alike)
